@@ -79,6 +79,20 @@ fn main() {
             });
             let prop = property(&rf.property).expect("unknown property");
             resolvo_sim::run::set_quiet(std::env::var("VERIF_VERBOSE").is_err());
+            if rf.class == "process-divergence" {
+                // statistical replay: the same scenario observed in several fresh processes
+                let me = std::env::current_exe().unwrap();
+                let outs = orchestrate::observe_in_processes(&me.to_string_lossy(), &args[2], 12);
+                let distinct: std::collections::BTreeSet<&String> = outs.iter().collect();
+                if distinct.len() > 1 {
+                    println!("VIOLATION property={} replay={}", rf.property, args[2]);
+                    println!("  class=process-divergence");
+                    println!("  {} fresh processes produced {} different outputs for the same scenario", outs.len(), distinct.len());
+                    std::process::exit(1);
+                }
+                println!("replay: 12 fresh processes agree on this scenario");
+                std::process::exit(0);
+            }
             let v = prop.judge(&rf.scenario);
             match v.violation {
                 Some((c, d)) if c == rf.class => {
@@ -110,6 +124,14 @@ fn main() {
             rf.scenario = min;
             std::fs::write(&args[3], serde_json::to_string_pretty(&rf).unwrap()).expect("write");
         }
+        // hash of everything a user can observe from a scenario, computed in this process (C06 cross-process)
+        "observe" => {
+            let s = std::fs::read_to_string(&args[2]).expect("read");
+            let rf: ReplayFile = serde_json::from_str(&s).expect("parse");
+            resolvo_sim::run::set_quiet(true);
+            let rec = resolvo_sim::run::execute(&rf.scenario);
+            println!("{:016x}", resolvo_sim::run::observable_digest(&rec));
+        }
         // per-seed digests of the full event log (determinism self-test)
         "digest" => {
             if args.len() < 6 {
@@ -125,7 +147,15 @@ fn main() {
                 let seed = orchestrate::seed_for(batch, prop.id(), i);
                 for (k, sc) in prop.gen(seed, tier).iter().enumerate() {
                     let rec = resolvo_sim::run::execute(sc);
+                    if std::env::var("VERIF_DIGEST_OBSERVABLE").is_ok() {
+                        println!("{i} {k} {:016x}", resolvo_sim::run::observable_digest(&rec));
+                        continue;
+                    }
                     let v = prop.judge(sc);
+                    if false && std::env::var("VERIF_DIGEST_OBSERVABLE").is_ok() {
+                        println!("{i} {k} {:016x}", resolvo_sim::run::observable_digest(&rec));
+                        continue;
+                    }
                     println!("{i} {k} {:016x} {:016x} {:?}", resolvo_sim::run::digest(&rec), v.key, v.violation.map(|x| x.0));
                 }
             }
